@@ -104,6 +104,12 @@ def meshes(tier, seed):
         if len(pts) <= 12:
             faces = oracle.hull_facets(pts)
             out.append((f"convexcopy:{name}", pts, faces))
+    # the same meshes at very small and very large sizes (faces with 5 and more vertices go through the ear clipping)
+    base = {m[0]: m for m in out}
+    for name in ("convexcopy:irregular_prism5", "convexcopy:prism6", "extruded:comb", "voxel:U7"):
+        _, verts, faces = base[name]
+        for s in (1e-5, 1e4):
+            out.append((f"{name}/x{s:g}", [[float(c) * s for c in p] for p in verts], faces))
     return out
 
 
@@ -114,7 +120,7 @@ def compare(verts, faces, R, t, what=None):
     tris = oracle.fan_triangles(faces)
     vol, cen, inertia = oracle.mesh_measures(P, tris)
     total, per = oracle.mesh_area(P, faces)
-    size = max(1.0, max(abs(c) for p in P for c in p))
+    size = max(abs(c) for p in P for c in p) or 1.0
     bad = []
 
     def chk(name, obs, exp, scale=None):
@@ -158,8 +164,10 @@ def run_bounded(chk):
     ms = meshes(chk.bounded_tier, chk.seed)
     n_eval = n_bad = 0
     for name, verts, faces in ms:
+        s_mesh = float(name.split("/x")[1]) if "/x" in name else 1.0
         for pname, R, t in corpus.placements():
             n_eval += 1
+            t = tuple(float(x) * s_mesh for x in t)       # offsets of ~10 sizes of the mesh at hand
             try:
                 bad, P = compare(verts, faces, R, t)
             except Exception as e:  # noqa: BLE001
@@ -179,7 +187,7 @@ def run_bounded(chk):
                   "== exact rational oracle of the closed mesh (relative tolerance 1e-9)",
         "bound": "8 voxel solids (cube, bar, L, U of 7 cubes, C, genus-1 frame of 8, stairs, 3-D T) with unit-square faces; "
                  "5 extruded simple polygons with ear-clipped caps; Polyhedron copies of the named convex solids with <= 12 "
-                 "vertices; 4 rigid placements each (offset ~10 sizes, 2 exact rational rotations)",
+                 "vertices; 4 meshes also at sizes 1e-5 and 1e4; 4 rigid placements each (offset ~10 sizes, 2 exact rational rotations)",
         "evaluations": n_eval, "distinct_nontrivial": len(ms),
         "rule": "distinct = different meshes; non-star-shaped: U7, C5, frame8, stairs, comb; genus 1: frame8",
         "samples": [{"mesh": m[0], "vertices": len(m[1]), "faces": len(m[2])} for m in ms[:3]],
@@ -192,7 +200,9 @@ def replay_mesh(kind):
 
     def replay(model):
         for name, verts, faces in meshes("quick", 0):
+            s_mesh = float(name.split("/x")[1]) if "/x" in name else 1.0
             for pname, R, t in corpus.placements():
+                t = tuple(float(x) * s_mesh for x in t)
                 try:
                     bad, P = compare(verts, faces, R, t, what=what)
                 except Exception as e:  # noqa: BLE001
